@@ -18,7 +18,6 @@ def prop(pid):
 
 def _exec_check(run, mc_jobs, gen_jobs, rand_family, rand_n, chain=1, sample=None, rule="", keys=False, extra=None):
     rng = random.Random(run.seed)
-    X.self_test(run)
     for name, kw in mc_jobs:
         X.model_check(run, name, **kw)
     recs = X.generate(run, gen_jobs)
@@ -32,6 +31,8 @@ def _exec_check(run, mc_jobs, gen_jobs, rand_family, rand_n, chain=1, sample=Non
         rs += extra(rng)
     ns2, _ = X.run_and_validate(run, rs, "rand", keys)
     run.cov["random_sessions"] = len(rs)
+    if not run.violations:
+        X.self_test(run)     # binding demonstration (only meaningful on a tree that conforms)
     run.cov["evaluations"] = ns1 + ns2
     run.cov["distinct_nontrivial"] = len({json.dumps([s["rules"], s["calls"], s["target"]], sort_keys=True)
                                           for s in sessions + rs if s["rules"]})
